@@ -27,14 +27,33 @@ def ivar(prefix="i"):
 
 
 # ------------------------------------------------------------------ reductions --------------
-_SUM = {}
+# sum_{k<n} body(k) is represented without binders: the body is abstracted over the 0-ary constants it mentions
+# (index variables, sizes, ...) and each distinct abstracted body gets one uninterpreted function
+#     SUMF_j(c_1, ..., c_m, n)  =  sum_{k=0}^{n-1} body_j[c_1..c_m](k)
+# so that two reductions with the same body (up to the names of those constants) are the same function applied to
+# their constants (congruence), and every VC stays quantifier- and lambda-free.  SUM_REGISTRY keeps the bodies
+# so that reductions over a literal extent can be unfolded when searching for counter-models (engine/refute.py).
+SUM_REGISTRY = {}   # function name -> (placeholders, k placeholder, template body)
+_SUM_BY_KEY = {}
 
 
-def SUM(sort):
-    key = sort.name()
-    if key not in _SUM:
-        _SUM[key] = z3.Function(f"SUM_{key}", z3.ArraySort(z3.IntSort(), sort), z3.IntSort(), sort)
-    return _SUM[key]
+def _consts_in(t, exclude_id):
+    out, seen, stack = [], set(), [t]
+    while stack:
+        x = stack.pop()
+        i = x.get_id()
+        if i in seen:
+            continue
+        seen.add(i)
+        if z3.is_quantifier(x):
+            stack.append(x.body())
+            continue
+        if z3.is_const(x) and x.decl().kind() == z3.Z3_OP_UNINTERPRETED:
+            if i != exclude_id:
+                out.append(x)
+            continue
+        stack.extend(reversed(x.children()))
+    return out
 
 
 def _contains(t, v):
@@ -57,9 +76,45 @@ def _contains(t, v):
     return False
 
 
+def _flat_factors(t):
+    """factors of a (possibly nested) product"""
+    if z3.is_mul(t):
+        out = []
+        for c in t.children():
+            out.extend(_flat_factors(c))
+        return out
+    return [t]
+
+
+def _sum_atom(d, k, extent):
+    """the reduction of the k-dependent product d over k < extent as an application of its SUMF function"""
+    cs = _consts_in(d, k.get_id())
+    phs = [z3.Const(f"ph!{i}!{c.sort().name()}", c.sort()) for i, c in enumerate(cs)]
+    kph = z3.Int("ph!k")
+    templ = z3.substitute(d, *([(c, p) for c, p in zip(cs, phs)] + [(k, kph)]))
+    key = templ.sexpr()
+    if key not in _SUM_BY_KEY:
+        name = f"SUMF{len(_SUM_BY_KEY)}"
+        f = z3.Function(name, *([c.sort() for c in cs] + [z3.IntSort(), d.sort()]))
+        _SUM_BY_KEY[key] = f
+        SUM_REGISTRY[name] = (phs, kph, templ)
+    return _SUM_BY_KEY[key](*(cs + [extent]))
+
+
 def mk_sum(body_fn, extent):
     """sum_{k=0}^{extent-1} body_fn(k), normalised by linearity: expanded into monomials, factors
-    that do not depend on k pulled out, each remaining k-dependent product becomes SUM(lambda k. m, n)."""
+    that do not depend on k pulled out, each remaining k-dependent product becomes one SUMF atom."""
+    es = z3.simplify(extent) if isinstance(extent, z3.ExprRef) else z3.IntVal(extent)
+    if z3.is_int_value(es) and 0 <= es.as_long() <= 4:
+        # a literal small extent: the explicit finite sum
+        tot = None
+        for kk in range(es.as_long()):
+            v = body_fn(z3.IntVal(kk))
+            tot = v if tot is None else tot + v
+        if tot is None:
+            probe = body_fn(z3.IntVal(0))
+            return z3.RealVal(0) if probe.sort() == z3.RealSort() else z3.IntVal(0)
+        return z3.simplify(tot)
     k = ivar("k")
     body = body_fn(k)
     sort = body.sort()
@@ -70,19 +125,20 @@ def mk_sum(body_fn, extent):
     terms = list(b.children()) if z3.is_add(b) else [b]
     total = None
     for t in terms:
-        factors = list(t.children()) if z3.is_mul(t) else [t]
+        factors = [z3.simplify(f) for f in _flat_factors(t)]
         indep = [f for f in factors if not _contains(f, k)]
         dep = [f for f in factors if _contains(f, k)]
         if not dep:
             n = z3.ToReal(extent) if sort == z3.RealSort() else extent
             piece = t * n
         else:
+            # canonical factor order that does not depend on term identities: by the text of each factor
+            # (so commuted products of the same factors give the same atom with the same argument order)
+            dep = sorted(dep, key=lambda f: f.sexpr())
             d = dep[0]
             for f in dep[1:]:
                 d = d * f
-            d = z3.simplify(d)
-            s = SUM(sort)(z3.Lambda([k], d), extent)
-            piece = s
+            piece = _sum_atom(d, k, extent)
             for f in indep:
                 piece = f * piece
         total = piece if total is None else total + piece
@@ -119,8 +175,45 @@ def flat_index(atoms, idx):
     return r if r is not None else z3.IntVal(0)
 
 
+def _split_affine(L, t):
+    """L == q * t + r syntactically?  returns (q, r) or None"""
+    Ls = z3.simplify(L)
+    ts = z3.simplify(t)
+    terms = list(Ls.children()) if z3.is_add(Ls) else [Ls]
+    q_terms, r_terms = [], []
+    for x in terms:
+        fs = _flat_factors(x)
+        hit = next((f for f in fs if f.eq(ts)), None)
+        if hit is not None:
+            rest = [f for f in fs if f is not hit]
+            q = rest[0] if rest else z3.IntVal(1)
+            for f in rest[1:]:
+                q = q * f
+            q_terms.append(q)
+        else:
+            r_terms.append(x)
+    if not q_terms:
+        return None
+    q = q_terms[0]
+    for x in q_terms[1:]:
+        q = q + x
+    r = z3.IntVal(0)
+    for x in r_terms:
+        r = r + x
+    return z3.simplify(q), z3.simplify(r)
+
+
 def unflatten(atoms, L):
-    """linear index -> per-atom indices (div/mod chain)"""
+    """linear index -> per-atom indices.  If the index is visibly q*t + r with 0 <= r < t (entailed by the current
+    path condition) the components are read off; otherwise the div/mod chain."""
+    if len(atoms) == 2:
+        from . import values as _values
+        ctx = _values._CUR[0]
+        sp = _split_affine(L, atoms[1]) if ctx is not None else None
+        if sp is not None:
+            q, r = sp
+            if ctx.entails(z3.And(r >= 0, r < atoms[1])):
+                return [q, r]
     out = []
     rem = L
     for pos in range(len(atoms)):
@@ -483,7 +576,8 @@ def _arith(op):
 
 
 def _div(ctx, x, y):
-    return to_real(x) / to_real(y)
+    from . import dom_real
+    return dom_real.rdiv(ctx, to_real(x), to_real(y))
 
 
 def _floordiv(ctx, x, y):
@@ -615,6 +709,10 @@ def permute(t, order):
         return t.elem(old)
 
     r = VTensor(new_dims, elem, t.sort, t.is_linop, linop_class=t.linop_class if t.is_linop else None)
+    cp = t.meta.get("cat_parts")
+    if cp is not None:
+        p, parts, bounds = cp
+        r.meta["cat_parts"] = (list(order).index(p), [permute(x, order) for x in parts], bounds)
     return r
 
 
@@ -1185,6 +1283,17 @@ def matmul(ctx, a, b):
     if a is None or b is None:
         raise Undecided("matmul with non-tensor")
     a, b = a.frozen(), b.frozen()
+    ca, cb = a.meta.get("cat_parts"), b.meta.get("cat_parts")
+    if ca is not None and cb is not None and len(a.dims) >= 2 and len(b.dims) >= 2 \
+            and ca[0] == len(a.dims) - 1 and cb[0] == len(b.dims) - 2 and len(ca[1]) == len(cb[1]) \
+            and all(same_extent(ctx, x.dims[ca[0]].size, y.dims[cb[0]].size) for x, y in zip(ca[1], cb[1])):
+        total = None
+        for x, y in zip(ca[1], cb[1]):
+            x2 = VTensor(list(x.dims), x.elem, x.sort)
+            y2 = VTensor(list(y.dims), y.elem, y.sort)
+            part = matmul(ctx, x2, y2)
+            total = part if total is None else pointwise(ctx, [total, part], lambda u, v: coerce_pair(u, v)[0] + coerce_pair(u, v)[1])
+        return total
     va = len(a.dims) == 1
     vb = len(b.dims) == 1
     if va:
